@@ -95,7 +95,7 @@ func (r *Report) collect(runs []*funcRun, obls []*Obligation, bindingFailures []
 
 func lockable(kind string) bool {
 	switch kind {
-	case "post", "panics_iff", "loop.inv", "loop.decreases", "frame", "lemma", "assert", "portable":
+	case "post", "panics_iff", "loop.inv", "loop.decreases", "frame", "lemma", "assert", "portable", "site.hook":
 		return true
 	}
 	return false
@@ -185,9 +185,8 @@ func (r *Report) finish(wall float64, writeEvidence bool) int {
 			path = r.writeReplayFile(vi, "")
 		}
 		fmt.Printf("VIOLATION property=%s replay=%s obligation=%s%s\n", r.prop, path, vi.name, suffix)
-		if code == 0 {
-			code = 1
-		}
+		// a violation is the answer of the check, also when it made part of the remaining assumptions contradictory
+		code = 1
 	}
 	fmt.Printf("SUMMARY property=%s tier=%s functions=%d obligations=%d discharged=%d violations=%d solver_time=%.1fs wall=%.1fs\n",
 		r.prop, r.tier, len(r.runs), r.nObl, r.nDis, nViol, r.solverT, wall)
